@@ -5,7 +5,7 @@ ROOT = os.path.dirname(os.path.dirname(os.path.abspath(__file__)))
 
 CLAIMED = {
  "C01": ("Lean proof of sorted-map refinement (split/union/join treap) + differential correspondence",
-         "Theorems C01.refines_sorted_map / reads_agree / invariants hold for every Set/Delete history and every TransCmp comparator; Machine.refinement extends it to stores with Flush/re-open. The executable model is run against the real package on generated histories (memory and file stores, flush/evict/re-open placement, malformed items) and every API result is compared.",
+         "Theorems C01.refines_sorted_map / reads_agree / invariants hold for every Set/Delete history and every TransCmp comparator; Machine.refinement extends it to stores with Flush/re-open. The executable model is run against the real package on generated histories (memory and file stores, flush/evict/re-open placement, malformed items) and every API result is compared. Model L (Model/Cache.lean: nodeLoc.read, itemLoc.read, node.Evict, GetItem, walk, evictSomeItems on a tree with explicit cache state) with cache_invisible: any history of lookups, Min/Max and evictions from ANY cached view of a coherent tree answers as the abstract tree does; stream C19L compares its answers, file reads and cache transitions with the package exactly (the cached view is read through the verif hook VerifCacheState).",
          "Model hand-written; tie = differential runs on generated histories; lengths < 2^32. Profile C01a runs the convenience API (SetAny/GetAny/DeleteAny/ExistAny over every argument type of toBa, Set, Name, Stats) against Model/AnyKey.lean; the priority Set draws is unspecified and is read back, not compared."),
  "C02": ("Lean proof: flush_then_open + history refinement Machine.reopen_shows_last_flush; correspondence on file images",
          "For every history of collection ops, Set/Delete, Flush and re-open (to any depth), re-opening shows exactly the state at the last Flush (theorem reopen_is_last_flush; side conditions: plain names, sizes < 2^32). The Go package and the model are compared on full state dumps and byte-exact file images after flushes and re-opens.",
@@ -56,7 +56,7 @@ CLAIMED = {
          "accounting / never_negative / reachable_positive / closed_balanced_partial for every precondition-respecting sequence of the seven reference events; nodes_freed_or_orphan, nodes_all_freed_if_no_load_under_replaced, nodes_not_all_freed on the version protocol; slots_loaded_before_copied (decide over Gen/SlotCopies.lean, regenerated from /repo); every_counting_site_is_an_event (the 25 ItemAddRef/ItemDecRef/ItemAlloc call sites of the regenerated Gen/Sites.lean are the reviewed ones, each mapped to its event kind). The harness's allocator scrubs pool items at count zero, so a premature release becomes a wrong result (found defect F20). The package runs with counting ItemAlloc/ItemAddRef/ItemDecRef callbacks over histories with snapshots, evictions, flushes, re-opens, nested visits, cold mutations under snapshots; after every step no count is negative and every cached reachable item is positive; after closing everything all counts are zero.",
          "closed_balanced_partial assumes every node object was freed. That assumption was FALSE of the pinned code (defect F11, repaired by /repo c2c929d, replays in corpus/); for the repaired code it is supported by the model theorem nodes_all_freed_if_no_load_under_replaced, the syntactic obligation slots_loaded_before_copied (textual order within a function, not dominance) and the refbalance predicate on the histories run - not by a proof about the Go code. The event model is tied to the code only through these predicates (not an event-by-event log comparison); Get's aliasing reference is counted as the caller's; faults are outside C15's quantifier."),
  "C19": ("Lean proof: open_reads_root_only (exact read list of the scan), key-only loads never touch value bytes, flush writes tile the file; read-log checks on the implementation",
-         "The model of NewStore's reads is the Go loop position by position; for files ending in a root record exactly Stat + 2 reads. Key-only traversals in any cache state read only node records and header+key ranges; records never overlap. On the implementation, every open's read list is compared exactly and every read of every key-only call (GetItem/Min/Max/visit without value, Exist, Len, Set, Delete) is checked against the value ranges of all item records ever flushed.",
+         "The model of NewStore's reads is the Go loop position by position; for files ending in a root record exactly Stat + 2 reads. Key-only traversals in any cache state read only node records and header+key ranges; records never overlap. On the implementation, every open's read list is compared exactly and every read of every key-only call (GetItem/Min/Max/visit without value, Exist, Len, Set, Delete) is checked against the value ranges of all item records ever flushed. keyonly_history_reads_no_value is the same statement for the traversal itself (Model L, Model/Cache.lean): stream C19L compares the exact read list and the cache state after every GetItem/MinItem/MaxItem/EvictSomeItems with Model L's, starting from the cache state the package reports.",
          "Value ranges are computed by the model from its own (byte-identical) file image. Key-only block visits and key-only iterators are among the bracketed calls."),
  "C04": ("Lean proof: frame theorems of the history interpreter (snapshot_isolated, readonly_rejects, reads_change_nothing) + recycling_safe; snapshot correspondence",
          "For every operation line the model leaves untargeted stores untouched, so a snapshot keeps its value through every later history; read-only stores reject Set/Delete/Flush unchanged; Close/FlushRevert through a snapshot leave file bytes alone. The Go-side reason (shared nodes are never recycled while a version is pinned) is C10's theorem; the stream compares all open snapshots (snapshots of snapshots, any close order, removal/replacement, Close of the original) and the original after every step.",
